@@ -25,6 +25,12 @@ def make_obs(ctx):
     obs.append(Ob('ltostr', H, 'h_ltostr', {'VMAX': vmax}, units=UNITS, unwind=12, group='ltostr', timeout=900,
                   solver='kissat' if ctx.tier == 'thorough' else 'cadical',
                   bounds={'value': '|v| < %d' % vmax, 'width': '-1, 2, 3, 9', 'padding': 'none, zero, space, omit'}))
+    # the total that the cascade splits: for date-times the record's seconds are the difference of the two
+    # instants' Unix seconds, for any two instants of the range (harness shared with C11)
+    from .C11 import UNITS as TUNITS
+    obs.append(Ob('total-seconds:any-pair', 'C11_time.c', 'h_dtdiff', dict(KMAX=911280), units=TUNITS, group='total-seconds',
+                  timeout=600, remove_bodies=core.prune_cals(['daisy']),
+                  bounds={'first': 'every second of every day 1601..4095 (day-number held)', 'second': 'any other second of the range'}))
     return obs
 
 
